@@ -27,6 +27,9 @@ func Run(cfg *hx.Config) error {
 	for _, ops := range valueCases() {
 		emit("value", ops, []string{"value-fixed"})
 	}
+	for _, ops := range restartCases() {
+		emit("restart", ops, []string{"restart-fixed"})
+	}
 	for _, ops := range routedCases() {
 		emit("routed", ops, []string{"routed-fixed"})
 	}
